@@ -48,4 +48,45 @@ PROPS = {
     },
 }
 
+DP_TB = [
+    "hand models coq/Model/Peripheral.v + DpMaster.v of src/dp/peripheral.rs, master.rs, peripheral_set.rs (after fix commits F4 F6 F10 F11), "
+    "tied by transcript replay: every FdlApplication callback and API call of generated histories is executed on the real DpMaster and on the model, "
+    "all outputs compared (TX bytes, events, is_live/is_running/pi_i/pi_q/last_diagnostics, operating state)",
+    "reference slave coq/Model/Slave.v (environment, written against the PROFIBUS standard, not the crate) and its Rust twin in harness/src/dp.rs, compared on every slave reply",
+    "the FdlApplication contract (C15) as the space of histories; harness emulates the FDL reply admission filter",
+]
+
+def _dp(pid, rule, technique, level_text, assumptions, nontrivial):
+    return {
+        "claimed": False,
+        "coq": "Properties/%s.v" % pid,
+        "domains": ["dp"],
+        "nontrivial": nontrivial,
+        "rule": rule,
+        "trusted_base": DP_TB,
+        "technique": technique,
+        "level_text": level_text,
+        "level_note": "Trusted: Coq kernel, translator (gen/translate.py, gen/tr_dp.py), extraction + OCaml driver, Rust harness; hand model validated differentially, not verified.",
+        "design_ref": "DESIGN.md section 4, %s" % pid,
+        "assumptions": assumptions,
+    }
+
+_DP_RULE = ("cases = generated DP histories (0..4 peripherals in dense/sparse/Vec storage, all option values, conforming/silent/faulty/mismatching slaves, "
+            "lost requests/replies, malformed and unexpected replies, power cycles, user calls between bus events, time advances, fault-free tails), deduplicated; "
+            "non-trivial = callbacks executed on the real master (transmit / reply / timeout steps)")
+_DP_NT = ["dp:step:transmit", "dp:step:reply", "dp:step:timeout"]
+_DP_ASSUME = ["histories allowed by the FdlApplication contract (C15)", "bytes 0..255, addresses 0..125, max_retry_limit 1..15 (ParametersBuilder bounds)"]
+
+PROPS["C03"] = _dp("C03", _DP_RULE, "phase 1: model + correspondence + executable monitor; one-step theorems",
+                   "Phase 1: executable Coq model of the DP master tied by transcript replay, bring-up monitor run on every implementation transcript; "
+                   "one-step theorems about the Set_Prm / Chk_Cfg request bytes.", _DP_ASSUME, _DP_NT)
+PROPS["C04"] = _dp("C04", _DP_RULE, "phase 1: model + correspondence + executable monitor; one-step theorems",
+                   "Phase 1: model, correspondence, process-image monitor on every implementation transcript; one-step frame theorem for pi_i.", _DP_ASSUME, _DP_NT)
+PROPS["C07"] = _dp("C07", _DP_RULE, "phase 1: model + correspondence + executable recovery monitor",
+                   "Phase 1: model, correspondence, bounded-recovery monitor on fault histories followed by a fault-free tail.", _DP_ASSUME, _DP_NT)
+PROPS["C08"] = _dp("C08", _DP_RULE, "phase 1: model + correspondence + executable wire monitor; one-step theorems",
+                   "Phase 1: model, correspondence, frame-count-bit / retry monitor per destination on every implementation transcript; one-step theorems.", _DP_ASSUME, _DP_NT)
+PROPS["C14"] = _dp("C14", _DP_RULE, "phase 1: model + correspondence + executable cycle/event monitor; termination theorem",
+                   "Phase 1: model, correspondence, cycle and event life-cycle monitor; theorem that transmit_telegram's loop ends within #slots+2 iterations.", _DP_ASSUME, _DP_NT)
+
 NOT_CLAIMED = {}
